@@ -2,7 +2,7 @@
    (values are truncated to the field width first), so the next UpdateData is the serialisation of the updated
    field values. *)
 From Gots Require Import Base.Prelude Model.Pts Model.Scte Model.ScteEnc Spec.Scte35Spec
-  Proofs.ScteLemmas Proofs.ScteExpected Proofs.ScteLogical Proofs.ScteEncode.
+  Proofs.ScteLemmas Proofs.ScteExpected Proofs.ScteLogical Proofs.ScteEncode Proofs.ScteSetters.
 Import Scte ScteEnc Scte35Spec.
 Local Open Scope N_scope.
 
@@ -17,23 +17,63 @@ Theorem set_tier_encoded fs st v : normal fs st ->
   fst (update_data st') = ser_section (logical fs st') /\ si_tier (logical fs st') = v mod 4096.
 Proof. intros H st'. split; [apply encode_canonical, normal_set_tier, H|reflexivity]. Qed.
 
-Lemma normal_set_adjust_pts fs st v : normal fs st -> v < 8589934592 -> normal fs (apply_sig_op st (SSetAdjustPTS v)).
+Lemma normal_set_adjust_pts fs st v : normal fs st -> normal fs (apply_sig_op st (SSetAdjustPTS v)).
 Proof.
-  intros (H1 & H2 & H3 & H4 & H5 & H6 & H7 & H8 & H9 & H10 & H11 & H12 & H13) Hv.
+  intros (H1 & H2 & H3 & H4 & H5 & H6 & H7 & H8 & H9 & H10 & H11 & H12 & H13).
   unfold normal. cbn [apply_sig_op with_pts s_tid s_protocol s_enc_alg s_cw s_tier s_pts s_cmd s_cmd_type s_descs s_other s_stuffing].
-  repeat split; assumption.
+  repeat split; try assumption. apply N.mod_lt. discriminate.
 Qed.
-(* pts_adjustment of the next encoding = (v - command pts_time) mod 2^33 *)
-Theorem set_adjust_pts_encoded fs st v : normal fs st -> v < 8589934592 ->
+(* for ANY argument v: PTS() = v mod 2^33, and the pts_adjustment of the next encoding is (that - command pts_time) mod 2^33 *)
+Theorem set_adjust_pts_encoded fs st v : normal fs st ->
   let st' := apply_sig_op st (SSetAdjustPTS v) in
+  s_pts st' = v mod 8589934592 /\
   fst (update_data st') = ser_section (logical fs st') /\
-  (cmd_pts (s_cmd st) + si_pts_adj (logical fs st')) mod 8589934592 = v.
+  (cmd_pts (s_cmd st) + si_pts_adj (logical fs st')) mod 8589934592 = v mod 8589934592.
 Proof.
-  intros H Hv st'. split; [apply encode_canonical, normal_set_adjust_pts; assumption|].
+  intros H st'. split; [reflexivity|]. split; [apply encode_canonical, normal_set_adjust_pts; assumption|].
   destruct H as (_ & _ & _ & _ & _ & _ & Hc & _).
   unfold st', logical, logical0. cbn [apply_sig_op with_pts with_crc si_pts_adj s_pts s_cmd].
-  unfold subtract_pts. destruct (N.leb_spec (cmd_pts (s_cmd st)) v); [rewrite N.mod_small; lia|].
+  assert (Hv : v mod 8589934592 < 8589934592) by (apply N.mod_lt; discriminate).
+  set (w := v mod 8589934592) in *.
+  unfold subtract_pts. destruct (N.leb_spec (cmd_pts (s_cmd st)) w); [rewrite N.mod_small; lia|].
   unfold sub64, w64. lia.
+Qed.
+
+(* the object-level value setters of 0b05886: getter = truncated value = what the next encoding carries, for ANY argument *)
+Theorem set_duration_encoded i v :
+  let i' := apply_ins_op (ISetDuration v) i in
+  i_duration i' = v mod 8589934592 /\
+  (i_cancel i = false -> i_has_duration i = true ->
+   exists b, logical_cmd (CInsert i') = Insert (i_event_id i) (Some b) /\ ib_break b = Some (i_auto_return i, v mod 8589934592)).
+Proof.
+  destruct i as [eid cancel out prog imm has pts comps hasdur dur auto up an ae]. cbn [apply_ins_op i_duration i_cancel i_has_duration i_event_id i_auto_return].
+  split; [reflexivity|]. intros -> ->. eexists. split; reflexivity.
+Qed.
+Theorem set_device_encoded d v :
+  let d' := apply_desc_op (DSetDeviceRestrictions v) d in
+  d_device d' = v mod 4 /\
+  (d_cancel d = false -> d_dnr d = false ->
+   exists b, logical_seg d' = Seg (d_event_id d) (Some b) /\ sb_restr b = Some (d_web d, d_noblackout d, d_archive d, v mod 4)).
+Proof.
+  destruct d. cbn [apply_desc_op d_device d_cancel d_dnr d_event_id d_web d_noblackout d_archive].
+  split; [reflexivity|]. intros -> ->. eexists. split; reflexivity.
+Qed.
+Theorem set_offset_encoded d j v c0 : (j < length (d_components d))%nat ->
+  let d' := apply_desc_op (DComp j (CoSetOffset v)) d in
+  co_off (nth j (d_components d') c0) = v mod 8589934592 /\
+  (d_cancel d = false -> d_program_seg d = false ->
+   exists b cs, logical_seg d' = Seg (d_event_id d) (Some b) /\ sb_comps b = Some cs /\
+                nth j cs (0, 0) = (co_tag (nth j (d_components d) c0), v mod 8589934592)).
+Proof.
+  destruct d as [ty eid hasdur dur uty u m sn se ssn sse owner cancel dnr hassub prog web nobl arch dev comps].
+  cbn [apply_desc_op d_components d_cancel d_program_seg d_event_id]. intros Hj.
+  assert (E : nth j (upd_nth comps j (apply_co_op (CoSetOffset v))) c0 = apply_co_op (CoSetOffset v) (nth j comps c0))
+    by (apply ScteSetters.upd_nth_nth; exact Hj).
+  split; [rewrite E; destruct (nth j comps c0); reflexivity|].
+  intros -> ->. eexists. eexists. split; [reflexivity|]. split; [reflexivity|].
+  cbn [d_components]. change (0, 0) with ((fun c => (co_tag c, co_off c)) (mkco 0 0)). rewrite map_nth.
+  rewrite (nth_indep _ (mkco 0 0) c0) by (pose proof (ScteSetters.upd_nth_length comps j (apply_co_op (CoSetOffset v))); lia).
+  rewrite E. destruct (nth j comps c0). reflexivity.
 Qed.
 
 Lemma normal_set_descriptors fs st ds : normal fs st ->
